@@ -204,6 +204,14 @@ def close(got, want, rel=1e-9, floor=0.0):
     return abs(g - w) <= rel * abs(w) + floor
 
 
+def same(got, want, rel=1e-12, floor=0.0):
+    """Exact-mode comparison: equality when the function stayed exact, else
+    (it went through a float constant or a sqrt) a tight tolerance."""
+    if isinstance(got, (F, int)) and not isinstance(got, bool):
+        return got == want
+    return close(got, want, rel, floor)
+
+
 def sq_close(got, want2, rel=1e-9, floor=0.0):
     """got >= 0 and got^2 ~ want2 (avoids an inexact sqrt on the oracle side)."""
     g = float(got)
@@ -252,7 +260,7 @@ class T_fast_det:
         scale = float(max(max(abs(x) for r in M for x in r), 1)) ** len(M)
         f = mods["triangulation"].fast_det
         return both(mods, lambda ex: f(M if ex else fl(M)),
-                    lambda g: None if g == want else f"fast_det = {g}, Leibniz determinant = {want}",
+                    lambda g: None if same(g, want) else f"fast_det = {g}, Leibniz determinant = {want}",
                     lambda g: None if close(g, want, 1e-9, 1e-11 * scale) else f"fast_det = {g!r}, Leibniz determinant = {float(want)!r}")
 
 
@@ -280,7 +288,7 @@ def _circum_check(P, got, exact):
     r2 = vdot(vsub(want, P[0]), vsub(want, P[0]))
     scale = float(max(max(abs(x) for p in P for x in p), 1))
     if exact:
-        if [F(x) for x in c] != want:
+        if not all(same(x, w) for x, w in zip(c, want)):
             return f"centre {[str(x) for x in c]} but the point equidistant from the vertices is {[str(x) for x in want]}"
     else:
         for x, w in zip(c, want):
@@ -470,7 +478,7 @@ class T_volume:
         for tag, (Q, w) in variants.items():
             with trace.exact_mode(mods):
                 g = f(Q)
-            if g != w:
+            if not same(g, w):
                 return f"exact run: volume{tag} = {g}, |det|/{d}! = {w}"
             g = f(fl(Q))
             if not close(g, w, 1e-9, 1e-11 * scale * max(1.0, float(abs(s)) ** d)):
@@ -502,7 +510,7 @@ class T_trivolume:
         vol = mods["triangulation"].Triangulation.volume
         with trace.exact_mode(mods):
             g = vol(FakeTri(d, [tuple(p) for p in P]), tuple(range(d + 1)))
-        if g != want:
+        if not same(g, want):
             return f"exact run: Triangulation.volume = {g}, |det|/{d}! = {want}"
         # the real class on a real triangulation of these vertices
         try:
@@ -565,7 +573,7 @@ class T_l1_default:
         L1 = mods["learner1D"]
         dx = xs[1] - xs[0]
         g = L1.uniform_loss(tuple(xs), tuple(ys) if not isinstance(ys[0], list) else tuple(map(tuple, ys)))
-        if g != dx:
+        if not same(g, dx):
             return f"uniform_loss = {g}, dx = {dx}"
         if isinstance(ys[0], list):
             want2 = max(dx * dx + (p - q) ** 2 for p, q in zip(*ys))
@@ -625,7 +633,7 @@ class T_l1_triangle:
                     [None if y is None else (tuple(c(v) for v in y) if isinstance(y, list) else c(y)) for y in ys])
         with trace.exact_mode(mods):
             g = L1.triangle_loss(*conv(lambda v: v))
-        if want is not None and g != want:
+        if want is not None and not same(g, want):
             return f"exact run: triangle_loss = {g}, mean triangle area = {want}"
         if want is None and not close(g, wantf(), 1e-10, 1e-13):
             return f"exact run: triangle_loss = {float(g)}, mean triangle area = {wantf()}"
@@ -680,7 +688,7 @@ class T_l1_resolution:
             return f"resolution_loss(min={mn}, max={mx}) on dx={dx} = {g}, expected {w}"
         g = L1.linspace(xs[0], xs[1], n)
         want = [xs[0] + k * dx / n for k in range(1, n)]
-        if list(g) != want:
+        if len(g) != len(want) or not all(same(u, v) for u, v in zip(g, want)):
             return f"linspace({xs[0]}, {xs[1]}, {n}) = {[str(v) for v in g]}, equally spaced interior points = {[str(v) for v in want]}"
         g = L1.linspace(float(xs[0]), float(xs[1]), n)
         if len(g) != n - 1 or any(not close(u, v, 1e-12, 1e-13) for u, v in zip(g, want)):
@@ -730,7 +738,7 @@ class T_nd_losses:
             with ctx:
                 S, V = conv(c, P, vals)
                 g = ND.uniform_loss(S, V, 1.0)
-                if (exact and g != vol) or not close(g, vol, 1e-9, 1e-12):
+                if (exact and not same(g, vol)) or not close(g, vol, 1e-9, 1e-12):
                     return f"{tag}: uniform_loss = {g}, |det|/{d}! = {vol}"
                 g = ND.default_loss(S, V, 1.0)
                 if not sq_close(g, want2, 1e-8, 1e-12):
@@ -1158,6 +1166,7 @@ def run(chk: Check) -> int:
 def replay(doc) -> int:
     mods = trace.load_modules()
     bad = 0
+    seen: dict = {}
     for f in doc.get("failing_inputs", []):
         r = f.get("replay", {})
         name = r.get("test")
@@ -1172,6 +1181,16 @@ def replay(doc) -> int:
             chk = types.SimpleNamespace(fail=lambda s, w, r: print("replayed", s, "->", w))
             out = findings(chk, mods)
             bad += out.get(name) != "repaired"
+        elif "group" in r and "entry" in r:      # a quadrature-constant entry
+            if "consts" not in seen:
+                rec = types.SimpleNamespace(failures=[], extra={}, note_case=lambda *a, **k: None,
+                                            broke=lambda *a: print("broke", a))
+                rec.fail = lambda s, w, rp: rec.failures.append((s, w))
+                c20_consts_oracle.search(rec)
+                seen["consts"] = rec.failures
+            hit = [w for s, w in seen["consts"] if s == f.get("signature")]
+            print("replayed", f.get("signature"), "->", hit[0] if hit else "oracle silent")
+            bad += bool(hit)
         else:
             print("cannot replay", f.get("signature"))
     for b in doc.get("no_longer_checks", []):
